@@ -257,6 +257,15 @@ where
             }
             continue 'handshake;
           }
+          // A session accepted while its socket was already closing has missed the event (it subscribed
+          // too late): look at the parent's own state every now and then.
+          _ = tokio::time::sleep(Duration::from_millis(100)) => {
+            if !self.socket_logic.core().is_running() {
+              self.transition_to_shutdown_stream(None).await;
+              break 'handshake;
+            }
+            continue 'handshake;
+          }
           r = tokio::time::timeout_at(
             hs_deadline,
             hs_read_half.read_buf(&mut self.handshake_read_buf),
